@@ -657,11 +657,23 @@ func init() {
 		if err := e.Reset(ctx, start); err != nil {
 			return "err"
 		}
+		var played []string // the game as it stands: take-backs ("tb") remove the last move
 		for _, m := range moves {
+			if m == "tb" {
+				if e.TakeBack(ctx) != nil || len(played) == 0 {
+					return "err-takeback"
+				}
+				played = played[:len(played)-1]
+				continue
+			}
 			if m != "" && e.Move(ctx, strings.TrimPrefix(m, "m:")) != nil {
 				return "err-move"
 			}
+			if m != "" {
+				played = append(played, m)
+			}
 		}
+		moves = played
 		out, err := e.Analyze(ctx, searchctl.Options{DepthLimit: lang.Some(uint(limit))})
 		if err != nil {
 			return "err-analyze"
@@ -1794,6 +1806,21 @@ func init() {
 			line := fmt.Sprintf("published iterx plain %d %s ; %s", limit, start, strings.Join(moves, " "))
 			o.do(line)
 			o.Count("iterx:kept-reports")
+			o.Nontrivial(line)
+		}
+		// ... the game includes its repetitions, however it got there: the engine analyses a fork of its board, possibly after
+		// take-backs - what it reports is what a search of the same game replayed from scratch reports (a move in the tree
+		// completes a third occurrence)
+		for i, h := range []string{"g1f3 g8f6 f3g1 f6g8 g1f3 g8f6 f3g1", "g1f3 g8f6 f3g1 f6g8 g1f3 tb g1f3 g8f6 f3g1 f6g8", "b1c3 b8c6 c3b1 c6b8 e2e4 tb b1c3 b8c6 c3b1",
+			"e2e4 e7e5 g1f3 b8c6 f3g1 c6b8 g1f3 b8c6 f3g1", "g1f3 g8f6 f3g1 f6g8 g1f3 g8f6 f3g1 f6g8 tb tb f3h4 tb f3g1"} {
+			kind := []string{"plain", "turochamp", "plain", "sargon", "turochamp"}[i]
+			lim := 3
+			if kind != "plain" {
+				lim = 2
+			}
+			line := fmt.Sprintf("published iterx %s %d %s ; %s", kind, lim, fen.Initial, h)
+			o.do(line)
+			o.Count("iterx:repetition-history")
 			o.Nontrivial(line)
 		}
 		// ... and an analysis is a function of the game and of what was asked: explicit limits of earlier analyses do not become the
